@@ -109,7 +109,7 @@ def native_replay(inst, q, workdir, inputs=None):
     cfgflags = ["-fsigned-char" if inst.cfg[0] == "s" else "-funsigned-char"]
     ndebug = [] if "d" in inst.cfg else ["-DNDEBUG"]
     inc = ["-I" + core.REPO + "/include", "-iquote", core.REPO + "/src", "-I" + VERIF + "/spec",
-           "-I" + VERIF + "/harness", "-I" + VERIF + "/stubs", "-I" + VERIF + "/golden", "-I" + workdir]
+           "-I" + VERIF + "/harness", "-I" + VERIF + "/stubs", "-I" + VERIF + "/golden", "-I" + workdir, "-I" + os.path.join(workdir, inst.cfg)]
     alias = []
     srcs = []
     # which file-local symbols does the harness use?
